@@ -54,15 +54,21 @@ macro_rules! consts {
 }
 
 fn main() {
+    vengine::on_worker_stack(real_main);
+}
+
+fn real_main() {
     let mut run = Run::from_args("C16", "c16");
     let r = &mut run;
     // (a) equal widths
+    // (the pairs with several 64-bit digits first: a digit-type dependent hang is then met by the watchdog
+    // before slower, terminating pairs can use up the wall-clock cap)
+    same_width!(r, BigRef, 500; d32 6 ~ d64 3);
+    same_width!(r, BigRef, 500; d8 24 ~ d64 3);
     same_width!(r, i128, 4000; d8 2 ~ d16 1);
     same_width!(r, BigRef, 700; d8 8 ~ d64 1);
     same_width!(r, BigRef, 700; d16 4 ~ d64 1);
     same_width!(r, BigRef, 700; d32 2 ~ d64 1);
-    same_width!(r, BigRef, 500; d32 6 ~ d64 3);
-    same_width!(r, BigRef, 500; d8 24 ~ d64 3);
     if r.tier == Tier::Thorough {
         same_width!(r, i128, 1500; d8 4 ~ d32 1);
         same_width!(r, i128, 1500; d16 2 ~ d32 1);
@@ -76,6 +82,18 @@ fn main() {
         same_width!(r, BigRef, 800; d8 40 ~ d64 5);
         same_width!(r, BigRef, 800; d16 20 ~ d64 5);
         same_width!(r, BigRef, 800; d32 10 ~ d64 5);
+    }
+    // the widest configurations (8192 bits): u8 digits against u64 digits, addition / subtraction and
+    // multiplication tables on a small dense / sparse plan
+    {
+        let pu = plans::hugeify(plans::cross_plan::<d8::U<1024>>(Tier::Quick, 24), 24, 24);
+        let pi = plans::hugeify(plans::cross_plan::<d8::I<1024>>(Tier::Quick, 24), 24, 24);
+        r.explore_diff(&c01::d8::u::<1024, BigRef>(), &c01::d64::u::<128, BigRef>(), &pu);
+        r.explore_diff(&c01::d8::i::<1024, BigRef>(), &c01::d64::i::<128, BigRef>(), &pi);
+        r.explore_diff(&c02::d8::u::<1024, BigRef>(), &c02::d64::u::<128, BigRef>(), &pu);
+        r.explore_diff(&c02::d8::i::<1024, BigRef>(), &c02::d64::i::<128, BigRef>(), &pi);
+        let pu = plans::hugeify(plans::cross_plan::<d16::U<512>>(Tier::Quick, 24), 24, 24);
+        r.explore_diff(&c02::d16::u::<512, BigRef>(), &c02::d32::u::<256, BigRef>(), &pu);
     }
     // (b) widening
     widen!(r, BigRef, 4000; d8 1 => d8 2);
